@@ -120,6 +120,14 @@ def run(chk):
     n = chk.q(25, 250)
     for i in range(n):
         ac = rand_aircraft(rng, chk.hist)
+        if i % 8 == 1:
+            # control points exactly on the two ends of the control surface (linear spacing, N = 8: control points at (2k+1)/16): the
+            # surface covers [root_span, tip_span], both ends included
+            ac = gen.simple_wing_aircraft(N=8, reid=False)
+            w_ = ac["wings"]["main_wing"]
+            w_["grid"] = {"N": 8, "distribution": "linear", "reid_corrections": False}
+            w_["control_surface"].update(root_span=3.0 / 16.0, tip_span=11.0 / 16.0)
+            chk.count("forced=control-point-on-surface-end")
         sd = gen.gen_scene(rng, chk.hist, rho="const", solver={"type": "nonlinear"})
         st = gen.gen_state(rng, chk.hist, ang=3.0, rates=False)
         try:
